@@ -148,7 +148,7 @@ def cmp(name, printed, value, tol, bad):
                         decade=(int(math.floor(math.log10(abs(value)))) if value else None)))
 
 
-def check_values(m, text, options):
+def check_values(m, text, options, exp_lines=None):
     bad = []
     rep = R.parse_report(text)
     # geometry rows
@@ -235,6 +235,26 @@ def check_values(m, text, options):
                     d = abs((l[4] - ph + 180) % 360 - 180)
                     if d > 5e-6 * 180 + 1e-6:
                         bad.append(dict(field='current-phase', printed=l[4], value=ph))
+        # currents: J / E lines (which pulse currents flow through a wire end is the specification's statement:
+        # coefficient vectors of spec/TopologyOn.tla for this object list; ends where two or more later wires join a
+        # FIRST end are C09's recorded finding and left to it)
+        if exp_lines is not None:
+            for o, b in enumerate(st['currents']):
+                ends = [l for l in b['lines'] if l[0] in ('J', 'E')]
+                want = [(e, x) for e, x in enumerate(exp_lines[o]) if x in ('J', 'E') or isinstance(x, (tuple, list))]
+                if len(ends) != len(want) or [l[0] for l in ends] != [x if isinstance(x, str) else x[0] for e, x in want]:
+                    bad.append(dict(field='end-line-kinds'))
+                    continue
+                for l, (e, x) in zip(ends, want):
+                    if isinstance(x, str):
+                        c = 0j
+                    elif e == 0 and len(x[1]) >= 2:
+                        continue
+                    else:
+                        c = sum(cf * complex(m.current[int(q)]) for q, cf in x[1].items())
+                    cmp('end-line-re', l[1], c.real, tol_e(c.real), bad)
+                    cmp('end-line-im', l[2], c.imag, tol_e(c.imag), bad)
+                    cmp('end-line-magnitude', l[3], abs(c), tol_e(abs(c)), bad)
         # far field tables
         if st['far_db'] is not None:
             ff = m.far_field
@@ -298,7 +318,7 @@ def cvalue(rnd, lo=-30, hi=12):
 
 
 def scenario(args):
-    kind, sd = args
+    kind, sd, exp_lines = args
     rnd = random.Random('%s/%s' % (sd, kind))
     out = dict(bad=[], exc=None, abs=None, toks=None, info=kind)
     try:
@@ -350,7 +370,7 @@ def scenario(args):
         text = m.as_mininec(opts)
         out['abs'] = abstract(m, opts)
         out['toks'] = tokenise(text)
-        out['bad'] = check_values(m, text, opts)
+        out['bad'] = check_values(m, text, opts, exp_lines)
     except R.ReportError as e:
         out['bad'] = [dict(field='report-grammar', msg=str(e))]
     except Exception as e:      # noqa
@@ -365,6 +385,9 @@ STRUCTS = [
     [dict(p1=1, p2=2, ns=1, tag=0), dict(p1=2, p2=3, ns=3, tag=0), dict(p1=3, p2=4, ns=1, tag=0)],
     [dict(p1=1, p2=2, ns=4, tag=7), dict(p1=3, p2=4, ns=1, tag=2), dict(p1=2, p2=101, ns=1, tag=0)],
     [dict(p1=2, p2=1, ns=2, tag=0), dict(p1=3, p2=1, ns=2, tag=0), dict(p1=4, p2=1, ns=2, tag=0), dict(p1=5, p2=1, ns=3, tag=0)],
+    # a wire grounded at its first end whose second end joins an EARLIER wire (radiator given after the top wire)
+    [dict(p1=1, p2=2, ns=3, tag=0), dict(p1=101, p2=2, ns=3, tag=0)],
+    [dict(p1=2, p2=1, ns=2, tag=0), dict(p1=101, p2=2, ns=2, tag=0), dict(p1=2, p2=3, ns=2, tag=0)],
 ]
 
 
@@ -384,7 +407,9 @@ def run(tier):
         for r in range(nrep // 4):
             kinds.append('%s#syn%d' % (json.dumps(s), r))
             kinds.append('%s#%d' % (json.dumps(s), r))
-    outs = C.parallel_map(scenario, [(k, C.seed()) for k in kinds], chunksize=2)
+    recs = T.spec_records(chk, STRUCTS, True, name='c19-structs')
+    explines = {json.dumps(s_): (None if r_.get('reject') else T.spec_lines(r_)) for s_, r_ in zip(STRUCTS, recs)}
+    outs = C.parallel_map(scenario, [(k, C.seed(), explines.get(k.split('#')[0])) for k in kinds], chunksize=2)
     cases = []
     idx = []
     for k, o in zip(kinds, outs):
@@ -457,7 +482,12 @@ def replay(path):
     d = json.load(open(path))['detail']
     print(json.dumps(d, indent=1, default=str)[:3000])
     if 'scenario' in d and not d['scenario'].startswith('sweep/'):
-        o = scenario((d['scenario'], C.seed()))
+        name = d['scenario'].split('#')[0]
+        exp = None
+        if name.startswith('['):
+            rec = T.spec_records(None, [json.loads(name)], True, name='c19-replay')[0]
+            exp = None if rec.get('reject') else T.spec_lines(rec)
+        o = scenario((d['scenario'], C.seed(), exp))
         print(json.dumps(dict(bad=o['bad'][:10], exc=o['exc']), indent=1, default=str))
         return 1 if (o['bad'] or o['exc']) else 0
     return 1
